@@ -158,6 +158,7 @@ func enumerate(d *document) []faults.Fault {
 // apply produces the damaged image for a fault set.
 func apply(d *document, set []faults.Fault) []byte {
 	var pkgFaults, pdfFaults, byteFaults []faults.Fault
+	var htmlRename []string
 	for _, f := range set {
 		switch f.Layer {
 		case "zip":
@@ -165,6 +166,8 @@ func apply(d *document, set []faults.Fault) []byte {
 		case "xml":
 			if d.pkg != nil {
 				pkgFaults = append(pkgFaults, f)
+			} else if f.Kind == "idref-family-renamed" {
+				htmlRename = append(htmlRename, f.S)
 			} else {
 				byteFaults = append(byteFaults, faults.Fault{Layer: "token", Kind: "replace", A: f.A, B: f.B, S: f.S})
 			}
@@ -175,6 +178,9 @@ func apply(d *document, set []faults.Fault) []byte {
 		}
 	}
 	img := d.data
+	for _, fam := range htmlRename {
+		img = faults.RenameFamily(img, fam)
+	}
 	if len(pkgFaults) > 0 && d.pkg != nil {
 		img = faults.ApplyPackage(d.pkg, pkgFaults)
 	}
